@@ -238,6 +238,7 @@ Definition c07_getitem (a : list Z) : list Z :=
               (kind 0 calldata, 1 code, 2 account without code, 3 account with code)
               | 3 loc off size | 4 dst src size | 5 src dst
    op:        <basic op> | 6 <bvec ccode> aloc asize nbody <basic ops> roff rsize oloc osize
+              | 7 loc size nbody <basic ops> roff rsize reverts
    input:     <bvec calldata> <bvec code> nops <ops>
    input:     ... optionally followed by  roff rsize  (the frame ends with RETURN / REVERT)
    output:    status (0 ok, 1 halt, 2 python exception, 3 malformed input)
@@ -335,6 +336,16 @@ Definition dec_mop (l : list Z) : option (mop Z * list Z) :=
             end
         | _ => None
         end
+      else if t =? 7 then
+        match r with
+        | loc :: size :: nb :: r1 =>
+            match dec_mbops (zn nb) r1 with
+            | Some (body, roff :: rsize :: rev :: r2) =>
+                Some (MCreate (zn loc) (zn size) body (zn roff) (zn rsize) (rev =? 1), r2)
+            | _ => None
+            end
+        | _ => None
+        end
       else match dec_mbop l with Some (b, r1) => Some (MB b, r1) | None => None end
   | [] => None
   end.
@@ -356,7 +367,7 @@ Definition c07_mem (a : list Z) : list Z :=
       | Some (code, n :: r1) =>
           match dec_mops (zn n) r1 with
           | Some (ops, tail) =>
-              match m_run 0 (ME cd code) (MF empty empty) ops with
+              match m_run 0 (ME cd code false) (MF empty empty) ops with
               | ROk st =>
                   let t := m_mem st in
                   let l := flat_map (fun kc => lay (snd kc) (fst kc)) (chunks t) in
@@ -379,8 +390,35 @@ Definition c07_mem (a : list Z) : list Z :=
   | None => [3]
   end.
 
+(* the code deployed by a creation executed after [ops]:
+   <bvec calldata> <bvec code> nops <ops> loc size nbody <basic ops> roff rsize
+   -> [0; n; bytes...] deployed | [1] nothing deployed (the init code halts) | [2] | [3] *)
+Definition c07_created (a : list Z) : list Z :=
+  match dec_bvec a with
+  | Some (cd, r) =>
+      match dec_bvec r with
+      | Some (code, n :: r1) =>
+          match dec_mops (zn n) r1 with
+          | Some (ops, loc :: size :: nb :: r2) =>
+              match dec_mbops (zn nb) r2, m_run 0 (ME cd code false) (MF empty empty) ops with
+              | Some (body, roff :: rsize :: _), ROk st =>
+                  match m_created 0 (m_mem st) (zn loc) (zn size) body (zn roff) (zn rsize) with
+                  | ROk (Some v) => [0; nz (blen v)] ++ flat v
+                  | ROk None => [1]
+                  | _ => [2]
+                  end
+              | _, _ => [3]
+              end
+          | _ => [3]
+          end
+      | _ => [3]
+      end
+  | None => [3]
+  end.
+
 Definition table : list (string * (list Z -> list Z)) :=
   [ ("c07_run"%string, c07_run); ("c07_setitem"%string, c07_setitem);
-    ("c07_getitem"%string, c07_getitem); ("c07_mem"%string, c07_mem) ].
+    ("c07_getitem"%string, c07_getitem); ("c07_mem"%string, c07_mem);
+    ("c07_created"%string, c07_created) ].
 
 Extraction "_build/C07/entries.ml" table.
